@@ -173,7 +173,9 @@ class ThriftMuxMessageSerializerSink(ClientMessageSink):
       A tuple of (message_type, tag)
     """
     header, = unpack('!i', stream.read(4))
-    msg_type = (256 - (header >> 24 & 0xff)) * -1
+    # The type is a signed byte; header was unpacked as a signed int, so an
+    # arithmetic shift yields it with the right sign.
+    msg_type = header >> 24
     tag = ((header << 8) & 0xFFFFFFFF) >> 8
     return msg_type, tag
 
